@@ -339,6 +339,9 @@ def c08(tier, replay):
     for p in live:
         c = rng.choice(clocks)
         sessions.append([{"do": "send", "line": p}, {"do": "go", "line": c}, {"do": "isready"}, {"do": "go", "line": rng.choice(clocks)}, {"do": "isready"}])
+    # clocks with unknown tokens in between (still clock settings with movestogo >= 1)
+    for g in GO_ODD:
+        sessions.append([{"do": "send", "line": rng.choice(live)}, {"do": "go", "line": g}, {"do": "isready"}])
     # go after the engine's own move may meet a finished game: mate-in-one positions, two go in a row
     for p in [x for x in live if True][: (10 if q else 60)]:
         sessions.append([{"do": "send", "line": p}, {"do": "go", "line": "go wtime 220 btime 220 movestogo 1"}, {"do": "go", "line": "go wtime 130 btime 130 movestogo 1"},
